@@ -93,7 +93,16 @@ let op_spec_expect f =
   let nb = bool_of_field f.(1) and n = int_of_string f.(2) in
   let l = roundtrip_expect nb (items_of f 3 n) in
   Printf.sprintf "%d%s" (List.length l) (put_items l)
+(* spec_sumwraps <nb> <N> <klen> <vlen|-1> -> <D10 shape?> <true total> *)
+let op_spec_sumwraps f =
+  let nb = bool_of_field f.(1) in
+  let nn = int_of_string f.(2) and kl = int_of_string f.(3) and vl = int_of_string f.(4) in
+  let it = (z_of_int kl, if vl < 0 then None else Some (z_of_int vl)) in
+  let ls = List.init nn (fun _ -> it) in
+  Printf.sprintf "%s %d" (b2s (sum_wraps nb ls)) (int_of_z (total_size nb ls))
 let op_spec_uriref f = b2s (uri_reference_shape (text_of_field_nn f.(1)))
+(* spec_form <unix> <filename> <uri string> -> has the documented form for the class of the name *)
+let op_spec_form f = b2s (uri_form (bool_of_field f.(1)) (text_of_field_nn f.(2)) (text_of_field_nn f.(3)))
 (* spec_class <text> -> unix_absolute drive unc relative *)
 let op_spec_class f =
   let t = text_of_field_nn f.(1) in
@@ -118,7 +127,9 @@ let dispatch (f : string array) : string =
   | "spec_qlegal" -> op_spec_qlegal f
   | "spec_dissect" -> op_spec_dissect f
   | "spec_expect" -> op_spec_expect f
+  | "spec_sumwraps" -> op_spec_sumwraps f
   | "spec_uriref" -> op_spec_uriref f
+  | "spec_form" -> op_spec_form f
   | "spec_class" -> op_spec_class f
   | "spec_urisize" -> op_spec_urisize f
   | "extent_f2u" -> op_extent_f2u f
